@@ -157,13 +157,14 @@ type c20Info struct {
 	KeyGenOK      int
 	SignOK        int
 	EarlyInjected int
+	UnsortedViews int
 }
 
 func runC20(c c20Case) *vh.Outcome {
 	o := &vh.Outcome{}
 	info := &c20Info{}
 	o.Info = info
-	var injected int32
+	var injected, unsorted int32
 	old := threshold.SyncInterval
 	threshold.SyncInterval = 2 * time.Millisecond
 	defer func() { threshold.SyncInterval = old }()
@@ -201,7 +202,7 @@ func runC20(c c20Case) *vh.Outcome {
 		}, 4096)
 		net.mu.Lock()
 		net.tap = func(to uint16, f rtFrame) {
-			if f.from == 1 && f.msgType == uint8(tss.MsgTypeMPC) {
+			if f.from == 1 && (f.msgType == uint8(tss.MsgTypeMPC) || f.msgType == uint8(tss.MsgTypeSync)) {
 				select {
 				case earlyCh <- struct {
 					to uint16
@@ -235,6 +236,17 @@ func runC20(c c20Case) *vh.Outcome {
 						g := e.f
 						if k == 1 && len(seen) > 1 {
 							g = seen[rng.Intn(len(seen))]
+						}
+						if g.msgType == uint8(tss.MsgTypeSync) && c.Seed%2 == 0 && atomic.LoadInt32(&unsorted) < 6 && len(g.data) >= 33+4 && (len(g.data)-33)%2 == 0 {
+							// out-of-phase synchroniser traffic of a misbehaving participant: the same announcement with its
+							// member list reversed (an unsorted view under a valid tag), as membership / query / response
+							d := append([]byte(nil), g.data[:33]...)
+							for i := len(g.data) - 2; i >= 33; i -= 2 {
+								d = append(d, g.data[i], g.data[i+1])
+							}
+							d[0] = byte(1 + rng.Intn(3))
+							g = rtFrame{from: g.from, msgType: g.msgType, topic: g.topic, data: d}
+							atomic.AddInt32(&unsorted, 1)
 						}
 						select {
 						case net.link(1, dst) <- g:
@@ -385,6 +397,10 @@ func runC20(c c20Case) *vh.Outcome {
 	}
 	info.Overlaps = int(atomic.LoadInt32(&net.overlaps))
 	info.EarlyInjected = int(atomic.LoadInt32(&injected))
+	info.UnsortedViews = int(atomic.LoadInt32(&unsorted))
+	if info.UnsortedViews > 0 {
+		o.Classes = append(o.Classes, "unsorted-synchroniser-views-injected")
+	}
 	o.Key = fmt.Sprintf("%+v", c)
 	o.NonTrivial = info.Overlaps > 0 || info.EarlyInjected > 0
 	o.Classes = append(o.Classes, "backend="+c.Backend, fmt.Sprintf("silent=%v", c.Silent))
